@@ -116,11 +116,13 @@ CHECKS = {
         'any varint length, zero- or variable-width items) and ANY cut offset into the block section, reading '
         'delivers exactly the values of the blocks wholly before the cut and ends cleanly iff the cut is on a '
         'block boundary (C14_cut_anywhere, from the varint prefix law); replacing any block marker by any other '
-        '16 bytes delivers only the earlier blocks and then an error (C14_marker_corruption). Check: library-'
+        '16 bytes delivers only the earlier blocks and then an error (C14_marker_corruption); the header the writer '
+        'emits, cut at ANY offset - in the magic, anywhere in the metadata map, in the marker - cannot be opened, for every '
+        'metadata map (C14_header_cut, from the strict-prefix theorem of the datum decoder). Check: library-'
         'written files (all six codecs) damaged at EVERY byte offset and at every marker/magic byte, compared '
         'with the expected prefix computed by an independent python parser, and with the model for the null codec.',
-   note='cuts inside the header are covered by the exhaustive sweep and the model correspondence; the theorem '
-        'for header cuts (strict prefix of the metadata map never decodes) is not yet proved in Coq',
+   note='the codec is a Section variable (decompress o compress = id is an assumption, checked by C15); the embedded schema text is '
+        'opaque bytes to the header theorem (a header that parses but whose avro.schema is cut is covered by the sweep only)',
    technique='Coq proof (induction over blocks, varint prefix law) + exhaustive damage sweep',
    design='DESIGN.md 5/C14'),
  'C06': dict(
